@@ -106,6 +106,9 @@ def build_project(root, spec):
                 add(f"<project:{rel}#über-uns>", kind="uni", target=tname, explicit=False, spelling="project-auto")
                 add(f"[{{M}} *x*](project:{rel}#安装-notes)", kind="cjk", target=tname, explicit=True, spelling="project-link")
             add(f"[{{M}} *x*](project:{rel})", kind="page", target=tname, explicit=True, spelling="project-link")
+            add(f"[](project:{rel})", kind="page", target=tname, explicit=False, spelling="project-link-empty")
+            if spec["anchors"] >= 2:
+                add(f"[](project:{rel}#sub)", kind="sub", target=tname, explicit=False, spelling="project-link-empty")
             add(f"[](#lbl-t{i})", kind="label-t", target=tname, explicit=False, spelling="hash-label")
             add(f"[](lbl-t{i})", kind="label-t", target=tname, explicit=False, spelling="bare-label")
             add(f"[{{M}} *x*](#lbl-t{i})", kind="label-t", target=tname, explicit=True, spelling="hash-label")
